@@ -21,3 +21,31 @@ def conn_setup(I, loc):
                 I.frames.pop()
     # SizeLimitDict: size limit is the class constant MAX_CLOSED_STREAMS (set in __init__)
     return None
+
+
+def explicit_keys(I, mref, nmax, label, required=(), note=None):
+    """BOUNDED STAND-IN helper: give a symbolic map an explicit key list of at
+    most `nmax` extra distinct symbolic keys (plus the `required` concrete
+    ones), so that loops over it can be unrolled exactly."""
+    import z3
+    m = I.heap.get(mref)
+    n = I.choose([I.fresh('n_' + label, 'int') == i for i in range(nmax + 1)], 'keys-in-' + label,
+                 names=[str(i) for i in range(nmax + 1)])
+    keys = list(required) + [I.fresh('%s_key%d' % (label, i), 'int') for i in range(n)]
+    for i, k in enumerate(keys):
+        for j in range(i):
+            I.assume(z3.IntVal(keys[j]) != k if isinstance(keys[j], int) else keys[j] != k)
+    dom = z3.K(z3.IntSort(), z3.BoolVal(False))
+    for k in keys:
+        dom = z3.Store(dom, k, z3.BoolVal(True))
+    m.dom = dom
+    m.explicit_keys = keys
+    m.size = len(keys)
+    I.bounds_used.add(note or ('%s: dictionaries of at most %d%s entries' % (label, nmax, (' + %d fixed' % len(required)) if required else '')))
+    return keys
+
+
+def conn_setup_bounded_streams(I, loc):
+    conn_setup(I, loc)
+    o = I.heap.get(loc['self'])
+    explicit_keys(I, o.fields['streams'], 3, 'streams', note='loops over self.streams verified for at most 3 streams')
